@@ -6,7 +6,7 @@
    - decoding never panics and never runs out of fuel. *)
 From Coq Require Import List NArith ZArith Lia Bool.
 From Coq Require Import ZifyN ZifyNat ZifyBool.
-From Mant Require Import Prim.R Prim.Bytes Model.Llmnr Spec.C09 Proofs.C09Base.
+From Mant Require Import Prim.R Prim.Bytes Gen.ConstsC09 Model.Llmnr Spec.C09 Proofs.C09Base.
 Import ListNotations.
 Open Scope N_scope.
 
@@ -107,7 +107,7 @@ Proof.
     destruct (N.leb_spec (lenN d) pos); [lia|].
     rewrite (go_index_byte_at _ _ _ Hb). cbn [bind].
     destruct (N.eqb_spec (lenN l) 0); [lia|].
-    unfold labelPointer. rewrite land_label by lia. cbn [N.eqb].
+    unfold labelPointer, c09_label_pointer. rewrite land_label by lia. cbn [N.eqb].
     destruct (N.ltb_spec (lenN d) (pos + 1 + lenN l)); [lia|].
     rewrite (go_slice_bytes_at _ _ _ _ Hbs). cbn [bind].
     rewrite IH; [ | now inversion Hnd | exact Hrec | lia ].
@@ -118,7 +118,7 @@ Proof.
     destruct (N.leb_spec (lenN d) pos); [lia|].
     rewrite (go_index_byte_at _ _ _ Hb1). cbn [bind].
     destruct (N.eqb_spec (192 + hi) 0); [lia|].
-    unfold labelPointer. rewrite land_pointer by exact Hhi. rewrite N.eqb_refl.
+    unfold labelPointer, c09_label_pointer. rewrite land_pointer by exact Hhi. rewrite N.eqb_refl.
     destruct (N.leb_spec (lenN d) (pos + 1)); [lia|].
     pose proof (be16_at_bytes _ _ _ _ Hb1 Hb2) as Hbe. unfold be16_at in Hbe.
     destruct (go_from d pos) as [tl| |]; cbn [bind] in Hbe; try discriminate.
@@ -197,7 +197,7 @@ Lemma encode_labels_rfc n : Forall (fun l => lenN l <= 63) n ->
   encode_labels n = Ok (flat_map (fun l => lenN l :: l) n).
 Proof.
   induction 1 as [|l n Hl Hn IH]; [reflexivity|].
-  cbn [encode_labels flat_map]. unfold MaxLabelLength. destruct (N.ltb_spec 63 (lenN l)); [lia|].
+  cbn [encode_labels flat_map]. unfold MaxLabelLength, c09_max_label_length. destruct (N.ltb_spec 63 (lenN l)); [lia|].
   rewrite IH. reflexivity.
 Qed.
 
@@ -250,7 +250,7 @@ Proof.
     destruct (N.leb_spec (lenN d) pos); [lia|].
     rewrite (go_index_byte_at _ _ _ Hb1). cbn [bind].
     destruct (N.eqb_spec (192 + hi) 0); [lia|].
-    unfold labelPointer. rewrite land_pointer by exact Hhi. rewrite N.eqb_refl.
+    unfold labelPointer, c09_label_pointer. rewrite land_pointer by exact Hhi. rewrite N.eqb_refl.
     destruct (N.leb_spec (lenN d) (pos + 1)); [lia|].
     pose proof (be16_at_bytes _ _ _ _ Hb1 Hb2) as Hbe. unfold be16_at in Hbe.
     destruct (go_from d pos) as [tl| |]; cbn [bind] in Hbe; try discriminate.
@@ -260,14 +260,14 @@ Proof.
     destruct (N.leb_spec (lenN d) pos); [lia|].
     rewrite (go_index_byte_at _ _ _ Hb). cbn [bind].
     destruct (N.eqb_spec len 0); [lia|].
-    unfold labelPointer. rewrite land_label by lia. cbn [N.eqb].
+    unfold labelPointer, c09_label_pointer. rewrite land_label by lia. cbn [N.eqb].
     destruct (N.ltb_spec (lenN d) (pos + 1 + len)); [lia|].
     rewrite go_slice_ok by lia. cbn [bind]. apply IH; [exact Hrec|lia].
   - pose proof (byte_at_lt _ _ _ Hb1) as Hp1. pose proof (byte_at_lt _ _ _ Hb2) as Hp2.
     destruct (N.leb_spec (lenN d) pos); [lia|].
     rewrite (go_index_byte_at _ _ _ Hb1). cbn [bind].
     destruct (N.eqb_spec (192 + hi) 0); [lia|].
-    unfold labelPointer. rewrite land_pointer by exact Hhi. rewrite N.eqb_refl.
+    unfold labelPointer, c09_label_pointer. rewrite land_pointer by exact Hhi. rewrite N.eqb_refl.
     destruct (N.leb_spec (lenN d) (pos + 1)); [lia|].
     pose proof (be16_at_bytes _ _ _ _ Hb1 Hb2) as Hbe. unfold be16_at in Hbe.
     destruct (go_from d pos) as [tl| |]; cbn [bind] in Hbe; try discriminate.
